@@ -1,9 +1,14 @@
 (** C10 — property theorems (statements and [exact]s only).
+    Proved: at most one replier is bound and only a bound one receives requests; a refused replier
+    is told and then closed (or its sink failed); the bound replier is unbound only by its own
+    departure (stream end, or sink failure on ready / flush).
     PARTIAL: that the rejection completes (nothing stays "being dealt with" once the rejected
-    sink accepts data) and re-binding after the bound replier leaves are executable predicates
-    (ReqRepSpec.obs_c10_ok / obs_c10_final_ok) evaluated on every implementation trace; the client-side classification of the error code is read from
-    the source by the translator (see the check's evidence). *)
+    sink accepts data) and that the next replier to register after a departure is bound are
+    executable predicates (ReqRepSpec.obs_c10_ok / obs_c10_final_ok / obs_c10_rebind_justified)
+    evaluated on every implementation trace; the client-side classification of the error code is
+    read from the source by the translator (see the check's evidence). *)
 Require Import Selium.Base Selium.PubSub Selium.ReqRep Selium.ReqRepSpec Selium.P_ReqRep Selium.P_ReqRepOrder.
+Require Import Selium.P_ReqRepBind.
 Open Scope N_scope.
 
 (** requests are only ever handed to a replier that was bound; a refused replier is never bound
@@ -27,6 +32,17 @@ Theorem c10_refused_replier_told_then_closed : forall tr s, rrun rinit tr = Some
          In l (h_closed (rgh s)) \/ In l (h_rej_failed (rgh s)) \/ rejecting s l).
 Proof. exact rr_rejected_told_then_closed. Qed.
 Print Assumptions c10_refused_replier_told_then_closed.
+
+(** "the bound replier's traffic is unaffected" / "after the bound replier's stream ends, the next
+    replier becomes the bound one": on every accepted trace, every replier that was ever bound is
+    still the bound one, or it departed in that trace -- its stream ended, or its sink failed when
+    asked whether it is ready or to flush.  Nothing else unbinds a replier: not another replier's
+    registration, not a rejected replier's failing sink, not a request its own sink refuses. *)
+Theorem c10_bound_replier_leaves_only_by_departure : forall tr s,
+  rrun rinit tr = Some s ->
+  forall l, In l (h_bound (rgh s)) -> server s = Some l \/ departed l tr = true.
+Proof. exact rr_bound_replier_leaves_only_by_departure. Qed.
+Print Assumptions c10_bound_replier_leaves_only_by_departure.
 
 (** Non-vacuity: a second replier arrives while the first is bound and its sink is slow *)
 Example c10_example :
